@@ -73,8 +73,7 @@ class Engine(EngineBase, ExprMixin, StmtMixin, CallMixin, PreludeMixin, FoldMixi
         sf.closure.update(fr.closure)
         saved = st.env
         st.env = {}
-        for text in c.requires:
-            text = clause(text)[0]
+        for _, text, _t in self.clauses(c.requires):
             st.assume(asz(truthy(self.ev1(self.parse_spec(text), st, sf))))
         st.env = saved
         self.flush_axioms(st)
@@ -121,8 +120,7 @@ class Engine(EngineBase, ExprMixin, StmtMixin, CallMixin, PreludeMixin, FoldMixi
         saved = st.env
         st.env = {}
         try:
-            for j, text in enumerate(ensures):
-                text, tags = clause(text)
+            for j, text, tags in self.clauses(ensures):
                 v = self.ev1(self.parse_spec(text), st, sf)
                 self.oblige(st, '%s#%s[%d]' % (c.qual, label, j), truthy(v), {'text': text, 'tags': tags})
         finally:
@@ -206,7 +204,13 @@ def _solve_one(args):
     s.add(*ob.pc)
     if ob.kind == 'canary':
         r = s.check()
-        return idx, str(r), time.time() - t0, None, 'z3'
+        who = 'z3'
+        if r != z3.unsat:
+            # second opinion on vacuity: cvc5 finds trivially contradictory assumptions z3 may not
+            r2, who2 = _external(s.to_smt2(), 5, only='cvc5')
+            if r2 == 'unsat':
+                return idx, 'unsat', time.time() - t0, None, 'cvc5'
+        return idx, str(r), time.time() - t0, None, who
     s.add(z3.Not(ob.goal))
     r = s.check()
     model = None
@@ -227,7 +231,7 @@ def _solve_one(args):
     return idx, str(r), time.time() - t0, model, ('z3', smt2)
 
 
-def _external(smt2, timeout_s):
+def _external(smt2, timeout_s, only=None):
     """Fallback solvers on SMT-LIB2 text: /usr/bin/z3 (4.8.12) then cvc5."""
     with tempfile.NamedTemporaryFile('w', suffix='.smt2', delete=False) as f:
         f.write(smt2)
@@ -235,6 +239,8 @@ def _external(smt2, timeout_s):
     try:
         for name, cmd in (('z3-4.8', ['/usr/bin/z3', '-T:%d' % timeout_s, path]),
                           ('cvc5', ['/usr/bin/cvc5', '--tlimit=%d' % (timeout_s * 1000), '--strings-exp', path])):
+            if only is not None and name != only:
+                continue
             try:
                 out = subprocess.run(cmd, capture_output=True, text=True, timeout=timeout_s + 5).stdout.strip().splitlines()
             except subprocess.TimeoutExpired:
@@ -297,7 +303,7 @@ def discharge(obs, timeout_ms=20000, procs=16, seed=0, ext_timeout_s=20, use_ext
                 if r == 'unknown' and isinstance(extra, tuple) and extra[1] and obs[idx].kind == 'ob':
                     ext.append((idx, extra[1]))
                 done.append(idx)
-            elif time.time() - t0 > (timeout_ms if obs[idx].kind != 'canary' else min(timeout_ms, 3000)) / 1000.0 + grace:
+            elif time.time() - t0 > (timeout_ms if obs[idx].kind != 'canary' else min(timeout_ms, 3000) + 6000) / 1000.0 + grace:
                 p.kill()
                 results[idx] = {'result': 'unknown', 'time': time.time() - t0, 'model': None, 'backend': 'z3(killed)'}
                 done.append(idx)
